@@ -74,7 +74,7 @@ Case gen_C19(uint64_t seed, long run, const GenCfg &g, const char *inflight) {
                 if (q.fact != FACTORED && r.chance(0.5)) { Mat T = A; gen_values(r, T, kValueModes[r.below(4)], cplx); q.re = T.re; q.im = T.im; q.vchange = "unrelated"; }
                 if (q.fact != FACTORED && r.chance(0.08)) { singular_values(r, A, cplx, q.re, q.im); q.vchange = "singular"; }
                 // storage faults inside re-use steps too (an eighth of them; derived from the step's own seed, no extra draw)
-                if (q.fact != FACTORED && ((q.rhs_seed >> 24) & 7) == 0) { FaultSpec f; f.k = 1 + (int)((q.rhs_seed >> 27) % 6); f.persist = ((q.rhs_seed >> 30) & 1) != 0; q.faults.push_back(f); }
+                if (q.fact != FACTORED && ((q.rhs_seed >> 24) & 3) == 0) { FaultSpec f; f.k = 1 + (int)((q.rhs_seed >> 27) % 7); f.persist = ((q.rhs_seed >> 30) & 1) != 0; q.faults.push_back(f); } // (a quarter of them; request 1 of a re-use step is the work array, expansions follow)
                 if (r.chance(0.12)) { Op sq = q; sq.lwork = -1; sq.faults.clear(); sq.re.clear(); sq.im.clear(); sq.vchange = ""; if (sq.fact == FACTORED) sq.fact = DOFACT; ops.push_back(sq); } // size query inside the chain
                 ops.push_back(q);
             }
